@@ -44,6 +44,10 @@ func HashNameToFwThread(name enc.Name) int {
 // The return value is a boolean map of which threads match the name
 func HashNameToAllPrefixFwThreads(name enc.Name) []bool {
 	threads := make([]bool, len(Threads))
+	prefixHash := name.PrefixHash()
+
+	// The empty prefix: a CanBePrefix Interest for "/" is held by the thread of the empty name
+	threads[int(prefixHash[0]%uint64(len(Threads)))] = true
 
 	// Dispatch all management requests to thread 0
 	if len(name) > 0 && bytes.Equal((name)[0].Val, LOCALHOST) {
@@ -51,7 +55,6 @@ func HashNameToAllPrefixFwThreads(name enc.Name) []bool {
 		return threads
 	}
 
-	prefixHash := name.PrefixHash()
 	for i := 1; i < len(prefixHash); i++ {
 		thread := int(prefixHash[i] % uint64(len(Threads)))
 		threads[thread] = true
